@@ -123,6 +123,153 @@ def oracle(c, cs, out, prop):
                 break
 
 
+def gen_prog(rng, ids):
+    """A program on one session: iterators created, advanced in any interleaving, used again after they raised, abandoned;
+    single calls in between.  The script is generated alongside by following what each command consumes."""
+    mode = rng.choice(["s", "a"])
+    ver = rng.choice(["v1", "v2c", "v3"])
+    allow_bulk = rng.choice([0, 1, 1, 1])
+    script, prog, its = [], [], []
+
+    def nid():
+        ids[0] += 1
+        return ids[0]
+
+    def send_part():
+        """-> False when the send itself fails (nothing is received then)"""
+        if mode != "a":
+            return True
+        x = rng.random()
+        if x < 0.1:
+            script.append("xBlockingIOError")
+            if rng.random() < 0.85:
+                script.append("r0")
+            else:
+                script.append("x" + rng.choice(["OSError", "BlockingIOError"]))
+                return False
+        elif x < 0.14:
+            script.append("x" + rng.choice(["OSError", "ValueError"]))
+            return False
+        else:
+            script.append("r0")
+        for _ in range(rng.choice([0, 0, 0, 1, 2])):
+            script.append("xBlockingIOError")
+        return True
+
+    def failure():
+        """an exception or (async) the timer -> token"""
+        if mode == "a" and rng.random() < 0.4:
+            return "t"
+        return "x" + rng.choice([e for e in SOCK_EXC if mode == "s" or e != "BlockingIOError"])
+    for _ in range(rng.randint(4, 14)):
+        x = rng.random()
+        if (x < 0.25 and len(its) < 3) or (not its and x >= 0.4):
+            kind = rng.choice(["getnext", "getbulk", "getbulk", "fetch"])
+            oid = rng.choice(["1.3.6.1", "1.3.6.1.2.1.2.2", "1.0.8802"])
+            api = [kind, oid] + ([rng.choice([None, 0, 1, 3, 50])] if kind == "getbulk" else [])
+            bulk = kind == "getbulk" or (kind == "fetch" and ver != "v1" and allow_bulk)
+            its.append({"bulk": bulk, "buf": []})
+            prog.append(["n", api])
+        elif x < 0.4:
+            api = rng.choice([["get", "1.3.6.1.2.1.1.5.0"], ["getmany", [rng.choice(["1.3.6.1.2", "1.3.6.1.3", "0.0"]) for _ in range(rng.choice([0, 1, 3]))]]])
+            prog.append(["c", api])
+            if send_part():
+                script.append("r%d" % nid() if rng.random() < 0.8 else failure())
+        else:
+            i = rng.randrange(len(its))
+            it = its[i]
+            prog.append(["x", i])
+            if it["bulk"] and it["buf"]:
+                it["buf"].pop(0)                    # an item, or the end marker: nothing is asked of the socket
+                continue
+            if not send_part():
+                continue
+            if rng.random() < 0.22:
+                script.append(failure())            # the iterator raises; it may be used again later
+                continue
+            if not it["bulk"]:
+                script.append("r%d" % nid())
+                continue
+            n = rng.choice([0, 1, 2, 3, 5])
+            l = [str(nid()) for _ in range(n)]
+            if l and rng.random() < 0.3:
+                l.insert(rng.randint(0, len(l)), "n")
+            script.append("l" + ".".join(l))
+            it["buf"] = l[1:] if l else []
+    return {"mode": mode, "pol": rng.choice([0, 1, 1]), "ver": ver, "allow_bulk": allow_bulk, "max_rep": rng.choice([1, 2, 20]), "prog": prog,
+            "script": script, "container": rng.choice(["list", "tuple", "iter", "gen"])}
+
+
+def prog_oracle(c, cs, out):
+    """on the implementation's own record: a hang is a violation; the policing discipline holds for programs too"""
+    if out.startswith("HANG") or "exc:HANG" in out:
+        c.violation("Python layer: a program of calls and iterators on one session never returns: %s" % pl.prog_model_line(cs)[:160], {"case": cs, "outcome": out},
+                    key="pyprog-hang")
+        return
+    if not out.startswith("EV "):
+        return
+    evs = out.split(" | ")[0][3:].split(" ")
+    credit, prev = 0, None
+    for i, e in enumerate(evs):
+        if e == "P":
+            credit += 1
+            if credit > 1 or not cs["pol"]:
+                c.violation("Python layer: in a program on one session the policer is consulted %s (event %d of `%s`)"
+                            % ("twice for one request" if cs["pol"] else "although none is configured", i, " ".join(evs)[:200]), {"case": cs, "trace": out}, key="pyprog-policed-twice")
+                return
+        elif e.startswith("S:") and e.split(":")[1] in SENDS and cs["pol"]:
+            if credit == 1:
+                credit = 0
+            elif not (cs["mode"] == "a" and prev == e):
+                c.violation("Python layer: in a program on one session request `%s` (event %d of `%s`) goes out without consulting the policer" % (e, i, " ".join(evs)[:200]),
+                            {"case": cs, "trace": out}, key="pyprog-unpoliced:" + e.split(":")[1])
+                return
+        prev = e
+
+
+def run_progs(c, cexe, rng, n):
+    """programs of several objects on one session against Model.PyLayer.run_prog -> (cases, disagreements)"""
+    ids = [0]
+    cases = [gen_prog(rng, ids) for _ in range(n)]
+    mo = vf.run_lines(cexe, [pl.prog_model_line(cs) for cs in cases])
+    keep = [(cs, m) for cs, m in zip(cases, mo) if "bad" not in m.split(" | ")[1] and m.startswith("EV ")]
+    res, log = vf.run_api_worker("pylayer", {"pyprog_cases": [cs for cs, _ in keep]})
+    if res is None:
+        c.errors.append("Python-layer worker failed (programs): " + log[-1500:])
+        return 0, 0
+    outs = list(res["pyprog"])
+    again = [i for i, ((cs, m), o) in enumerate(zip(keep, outs)) if o != m and "t" in cs["script"]]
+    if again:
+        res2, _l2 = vf.run_api_worker("pylayer", {"pyprog_cases": [dict(keep[i][0], timeout=1.5, watchdog=30.0) for i in again]})
+        if res2 is not None:
+            for i, o2 in zip(again, res2["pyprog"]):
+                outs[i] = o2
+    dis = 0
+    multi = 0
+    for (cs, m), o in zip(keep, outs):
+        nit = sum(1 for x in cs["prog"] if x[0] == "n")
+        multi += nit >= 2
+        c.count(("pyprog", pl.prog_model_line(cs)), nit >= 2 or "exc:" in m)
+        if o != m:
+            dis += 1
+            if dis <= 3:
+                c.log("Model.PyLayer.run_prog and the Python layer differ on `%s`:\n     model %s\n     impl  %s" % (pl.prog_model_line(cs), m, o))
+            if not any(b.startswith("correspondence (Python layer, programs)") for b in c.broken):
+                c.broken = list(c.broken) + ["correspondence (Python layer, programs) `%s`: model `%s` impl `%s`" % (pl.prog_model_line(cs)[:300], m[:200], o[:200])]
+            # an independent statement of what went wrong, when one applies: an item delivered twice or to the wrong iterator
+            mi = [x for x in m.split(" | ")[1][5:].split(",") if x.startswith("ret:") and x != "ret:0"]
+            oi = [x for x in o.split(" | ")[1][5:].split(",") if x.startswith("ret:") and x != "ret:0"] if " | OUTS " in o else []
+            if len(oi) != len(set(oi)):
+                c.violation("Python layer: an item is handed out twice within one session (iterators reused after an exception, or two iterators): %s"
+                            % [x for x in oi if oi.count(x) > 1][:4], {"case": cs, "model": m, "observed": o}, key="pyprog-item-twice")
+            elif oi != mi and sorted(oi) == sorted(mi):
+                c.violation("Python layer: items reach the caller in another order / through another iterator than the one that asked for them",
+                            {"case": cs, "model": m, "observed": o}, key="pyprog-item-misrouted")
+        prog_oracle(c, cs, o)
+    c.coverage["python_layer_programs"] = {"cases": len(keep), "dropped_misfit_scripts": len(cases) - len(keep), "with_two_or_more_iterators": multi, "disagreements": dis}
+    return len(keep), dis
+
+
 def run(c, cexe, rng, n, prop):
     """-> (cases, disagreements)"""
     ids = [0]
@@ -158,6 +305,8 @@ def run(c, cexe, rng, n, prop):
             if not any(b.startswith("correspondence (Python layer)") for b in c.broken):
                 c.broken = list(c.broken) + ["correspondence (Python layer) `%s`: model `%s` impl `%s`" % (pl.model_line(cs), m[:200], o[:200])]
         oracle(c, cs, o, prop)
+    np_, dp_ = run_progs(c, cexe, rng, max(60, n // 3))
+    dis += dp_
     c.coverage["python_layer"] = {"cases": len(keep), "dropped_misfit_scripts": len(cases) - len(keep), "disagreements": dis,
                                   "by_mode_api_ending": {"%s/%s/%s" % k: v for k, v in sorted(stats.items())}}
     return len(keep), dis
